@@ -1,14 +1,25 @@
 """C05: the reported result is the combination of the component results.
 
 Every case drives one strategy step by step (perform with max_evaluations=1, then refine(); continue ...) with a logging
-Integration subclass.  At every stop the reported value is compared with
-  (a) the extracted accumulator model (Model/Accum.v) replayed on the raw event log and on the derived driver steps,
-  (b) an independent recomputation (fresh grid, fresh integrand: sum over current areas and component grids of
-      coefficient * grid.integrate),
-  (c) evaluate_final_combi() on a deep copy, (d) an uninterrupted second run with reevaluate_at_end=True,
+operation (Integration / UncertaintyQuantification subclass) and a strategy subclass that marks the driver's own evaluation
+(compute_solutions): every evaluate_area call outside of it is a SIDE evaluation (twin errors of split_single_dim, temporary
+parent areas), every evaluate_area_for_error_estimates call an ESTIMATE evaluation.  At every stop the reported value is
+compared with
+  (a) the extracted accumulator model (Model/Accum.v) replayed on the event log - main evaluations as the model prescribes them
+      (added to area, container and result), side evaluations as ASide (area value only), estimates as AEstimate (nothing) -
+      and on the derived driver steps with and without the side evaluations (Accum.strip_sides); the flags the implementation
+      actually passed are compared with the model's prescription; the verified invariant check inv_checkb on every snapshot,
+  (b) an independent recomputation (fresh grid, fresh integrand/operation: sum over current areas and component grids of the
+      CURRENT scheme of coefficient * grid.integrate; for coarsening version 0 with an independent coarsening rule),
+  (c) evaluate_final_combi() on a deep copy (once and twice), (d) uninterrupted second runs with reevaluate_at_end on/off and
+      with solutions_storage,
   (e) get_points_and_weights() applied to the integrand (standard, dimension-wise), combined by the model,
-  (f) the value returned at earlier stops (aliasing of the live accumulator)."""
+  (f) the value returned at earlier stops (aliasing of the live accumulator).
+The generator draws every constructor option / code path that reaches the accumulation and runs on the unchanged tree (see
+OPTIONS below; the option histogram goes into the evidence); options that make the unchanged code raise are listed in EXCLUDED and
+probed on every run."""
 import copy
+import itertools
 import random
 from fractions import Fraction
 
@@ -21,17 +32,68 @@ ASSUMPTIONS = [
     'exact-arithmetic model; integrands are integer-coefficient polynomials on dyadic boxes so that almost all float sums are exact; '
     'comparisons use |impl-model| <= 1e-12*(sum of absolute contributions + 1)',
     'the per-component partial results (grid.integrate) are inputs of the model (captured from the run); their correctness is C08/C09',
-    'extend-split in its default coarsening version 0, split_single_dim=False',
+    'main / side classification of evaluate_area calls: a call is a main evaluation iff it is made inside compute_solutions of the '
+    'strategy instance (marked by a harness subclass), independent of the flags that are passed',
+    'extend-split coarsening versions 1, 2 and 3 (outside the quantifier of the property: default version 0) keep per-area results that are stale '
+    'after a scheme change on the unchanged tree: for them only the bookkeeping (replay, flags, invariant, sum of the stored area results) is compared',
 ]
 
 TOL = Fraction(1, 10 ** 12)
+NODAL_GLOBAL = ('trap', 'simpson', 'romberg', 'highorder')      # the published rule is claimed for nodal (non-hierarchical) grids only
+
+# options that reach the accumulation of the reported result and the values the generator draws (histogram in the evidence)
+OPTIONS = {
+    'es': ['version 0..3', 'automatic_extend_split', 'split_single_dim', 'number_of_refinements_before_extend 1..3', 'lmin 1..2', 'lmax',
+           'local grid trap/cc/simpson/lagrange2/lagrange3/bspline3 (high-order grids switch to parent estimation)', 'boundary',
+           'recalculate_frequently (refinements_for_recalculate lowered)', 'refinement_container (restart from the refinement reached)', 'error calculator lib/scripted', 'warm-up instance on the same operation',
+           'reevaluate_at_end', 'solutions_storage', 'evaluate_final_combi'],
+    'dw': ['version 0..9', 'rebalancing', 'chebyshev_points', 'dim_adaptive', 'use_volume_weighting', 'force_balanced_refinement_tree', 'margin',
+           'global grid trap/simpson/romberg/lagrange2/bspline3/highorder', 'boundary', 'operation Integration/UncertaintyQuantification '
+           '(GlobalTrapezoidalGridWeighted, grid_surplusses)', 'recalculate_frequently', 'refinement_container (restart)', 'reevaluate_at_end', 'solutions_storage'],
+    'cell': ['lmin 1..2', 'dimension 2..3', 'error calculator lib/scripted'],
+    'std': ['lmin', 'lmax', 'local grid trap/cc/simpson/leja', 'boundary', 'earlier request on the same object'],
+    'da': ['max_number_of_points', 'earlier perform_combi on the same object'],
+}
+# options that make the UNCHANGED code raise: outside the envelope, probed on every run (an option that starts to run is reported in
+# the evidence so that it can be brought in)
+EXCLUDED = [
+    dict(name='es no_initial_splitting=True', probe=dict(no_initial_splitting=True), expect='AssertionError',
+         why='SpatiallyAdaptiveExtendScheme.initialize_refinement: assert False in the noInitialSplitting branch'),
+    dict(name='es dim_adaptive=True', probe=dict(es_dim_adaptive=True), expect='TypeError',
+         why="initialize_refinement passes lists to CombiScheme.init_adaptive_combi_scheme ('>=' not supported between list and int)"),
+    dict(name='dw GlobalTrapezoidalGrid(modified_basis=True, boundary=True)', probe=None, expect='AssertionError', why='Grid.py: the modified basis needs boundary=False'),
+    dict(name='dw modified_basis=True, boundary=False', probe=None, expect='AttributeError', why='np.float removed from the pinned numpy'),
+    dict(name='dw GlobalRombergGrid(boundary=False) / GlobalBalancedRombergGrid', probe=None, expect='AssertionError', why='Grid.py asserts / unbalanced grid'),
+    dict(name='dw force_balanced_refinement_tree with scripted errors', probe=None, expect='AssertionError', why='find_missing_point assertion on arbitrary refinement histories'),
+    dict(name='es version=3 + split_single_dim (some histories)', probe=None, expect='AssertionError',
+         why='set_split_benefit: num_comparison > num_points_extend_parent fails (spatiallyAdaptiveExtendSplit.py:592); such cases are counted, not compared'),
+    dict(name='LejaGrid in adaptive runs', probe=None, expect='(minutes per run)', why='cost only; used for StandardCombi'),
+]
 
 # ---------------------------------------------------------------------------------------------- generator
 
 
+def _symmetric_comps(rng, dim, nout):
+    """integrands that are symmetric under every permutation of the variables, or multilinear (exactly integrated by the
+    trapezoidal rule): the twin errors of split_single_dim tie, so that an area is split in several dimensions at once"""
+    comps = []
+    for _ in range(nout):
+        if rng.random() < 0.35:
+            terms = [[rng.choice([1, 2, 3, -1]), [rng.choice([0, 1]) for _ in range(dim)]] for _ in range(rng.randrange(1, 3))]
+        else:
+            terms = []
+            for _ in range(rng.randrange(1, 3)):
+                exps = sorted(rng.choice([0, 1, 2, 2, 3]) for _ in range(dim))
+                c = rng.choice([1, 2, 3, -1, 4])
+                for perm in sorted(set(itertools.permutations(exps))):
+                    terms.append([c, list(perm)])
+        comps.append(terms)
+    return comps
+
+
 def gen_case(rng, quick=True):
     r = rng.random()
-    strat = 'es' if r < 0.42 else 'dw' if r < 0.78 else 'std' if r < 0.90 else 'da'
+    strat = 'es' if r < 0.46 else 'dw' if r < 0.74 else 'cell' if r < 0.80 else 'std' if r < 0.91 else 'da'
     dim = 2 if rng.random() < 0.75 else 3
     a = [rng.choice([0, 0, -1]) for _ in range(dim)]
     b = [rng.choice([1, 1, 2]) for _ in range(dim)]
@@ -39,30 +101,89 @@ def gen_case(rng, quick=True):
     comps = A.gen_comps(rng, dim, nout)
     case = dict(strat=strat, a=a, b=b, comps=comps, ref=None, norm=0, boundary=True, lmin=1, lmax=2, seed=rng.randrange(1 << 30))
     if strat in ('dw', 'es'):
-        case['warmup'] = rng.random() < 0.35
+        case['warmup'] = rng.random() < 0.3
+        # performSpatiallyAdaptiv(..., refinement_container=<the refinement reached>) after the last stop: every object is evaluated again
+        case['restart'] = rng.random() < 0.15
     if strat == 'dw':
-        case.update(version=rng.choice([6, 6, 3, 7]), rebalancing=rng.random() < 0.6, boundary=rng.random() < 0.8,
+        case.update(version=rng.choice([6, 6, 6, 3, 7, 2, 8, 0, 1, 4, 5, 9]), rebalancing=rng.random() < 0.6, boundary=rng.random() < 0.8,
                     errcalc='lib' if rng.random() < 0.3 else ['scripted', rng.randrange(1 << 20)],
                     steps=rng.choice([1, 2, 3, 4, 5]) if dim == 2 else rng.choice([1, 2, 3]), cap=400 if dim == 2 else 700)
+        if rng.random() < 0.2:
+            case['volume_weighting'] = True
+        if rng.random() < 0.12:
+            case['margin'] = rng.choice([0.5, 0.75, 1.0])
+        if rng.random() < 0.08:
+            case['lmax'] = 3
+        g = rng.random()
+        if g < 0.3:
+            # other global grids (the basis grids hierarchise; GlobalHighOrderGrid / GlobalSimpsonGrid assert the quality of their
+            # rules on boundary-free or strongly graded grids: boundary=True, default dim_adaptive)
+            kind = rng.choice(['simpson', 'romberg', 'lagrange2', 'bspline3', 'highorder', 'simpson', 'lagrange2'])
+            case.update(ggrid=kind, boundary=True, steps=min(case['steps'], 3))
+            if kind == 'highorder':
+                case.update(a=case['a'][:2], b=case['b'][:2], comps=[[[c, e[:2]] for c, e in t] for t in comps], steps=min(case['steps'], 2))
+            if kind == 'romberg':             # the extrapolation weights assert dyadic step widths: unit cube
+                case.update(a=[0] * len(case['a']), b=[1] * len(case['a']))
+        elif g < 0.42:
+            # UncertaintyQuantification operation (inherits the accumulator of Integration), as the repo's UQ tests construct it
+            case.update(op=['uq', rng.choice(['Uniform', ['Triangle', 0.25]])], ggrid='trapw', grid_surplusses=True, volume_weighting=True, errcalc='lib')
+            if case['op'][1] != 'Uniform':
+                case.update(a=[0] * dim, b=[1] * dim)
+        else:
+            o = rng.random()
+            if o < 0.18:
+                # RefinementObjectSingleDimension.map_chebyshev is only meaningful on [0,1] (asserts start < mid < end elsewhere)
+                case.update(chebyshev=True, a=[0] * len(case['a']), b=[1] * len(case['a']))
+            elif o < 0.36:
+                # the library's error estimator raises (abs(None)) without the dimension-adaptive scheme: scripted errors
+                case.update(dim_adaptive=False, errcalc=['scripted', rng.randrange(1 << 20)])
+            elif o < 0.46:
+                case.update(force_balanced=True, errcalc='lib')
+        if rng.random() < 0.08:
+            case['recalc'] = rng.choice([1, 2, 3])
     elif strat == 'es':
-        case.update(lmax=rng.choice([2, 2, 3]), nrbe=rng.choice([1, 1, 2]), auto=rng.random() < 0.25,
+        case.update(version=rng.choice([0, 0, 0, 0, 0, 1, 1, 1, 2, 3]), lmax=rng.choice([2, 2, 3]), nrbe=rng.choice([1, 1, 2, 3]), auto=rng.random() < 0.25,
+                    single_dim=rng.random() < 0.4,
                     errcalc='lib' if rng.random() < 0.3 else ['scripted', rng.randrange(1 << 20)],
                     steps=rng.choice([1, 2, 3, 4]) if dim == 2 else rng.choice([1, 2]), cap=500 if dim == 2 else 900)
-        if rng.random() < 0.45:
+        if rng.random() < 0.15:
+            case.update(lmin=2, lmax=rng.choice([3, 3, 4]) if dim == 2 else 3)
+        if rng.random() < 0.4:
             # other local grids; the high-order ones (is_high_order_grid) switch extend-split to parent estimation and, with
             # automatic_extend_split, to the extend_error_correction bookkeeping that works on copies of area.value
             kind = rng.choice(['cc', 'cc', 'cc', 'lagrange2', 'lagrange3', 'bspline3', 'simpson'])      # (Leja: minutes per run)
-            case.update(grid=kind, auto=rng.random() < 0.7, errcalc='lib', steps=rng.choice([2, 3, 4]) if kind in ('cc', 'simpson') else rng.choice([2, 3]))
+            case.update(grid=kind, auto=rng.random() < 0.7, errcalc='lib', steps=rng.choice([2, 3, 4]) if kind in ('cc', 'simpson') else rng.choice([2, 3]),
+                        lmin=1)
             if kind[:3] in ('lag', 'bsp'):
                 case.update(a=case['a'][:2], b=case['b'][:2], lmax=3, comps=[[[c, e[:2]] for c, e in t] for t in comps], cap=900)
             else:
                 case.update(lmax=rng.choice([2, 3]) if dim == 2 else 2)
+        if case['single_dim'] and case.get('grid') and len(case['a']) == 3:
+            # parent estimation (high-order grids) asserts 2 or 2**dim children (get_sum_sibling_value): a split in 2 of 3 dimensions raises
+            case.update(a=case['a'][:2], b=case['b'][:2], comps=[[[c, e[:2]] for c, e in t] for t in case['comps']])
+        if case['single_dim'] and rng.random() < 0.6:
+            d = len(case['a'])
+            lo, hi = rng.choice([(0, 1), (0, 1), (-1, 1), (0, 2)])
+            case.update(a=[lo] * d, b=[hi] * d, comps=_symmetric_comps(rng, d, nout))
+        if rng.random() < 0.08:
+            case['recalc'] = rng.choice([1, 2, 3])
+            case['errcalc'] = ['scripted', rng.randrange(1 << 20)]
+            case['steps'] = max(case['steps'], 3)
+    if strat in ('es', 'dw') and case.get('op', 'int') == 'int' and rng.random() < 0.3:
+        # a reference solution switches get_global_error_estimate to the relative error of the running result
+        case['ref'] = [float(x) if x != 0 else 1.0 for x in A.poly_integral(case['comps'], case['a'], case['b'])]
+    if strat == 'cell':
+        case.update(a=[0] * dim, b=[1] * dim, lmin=rng.choice([1, 1, 2]) if dim == 2 else 1, errcalc='lib' if rng.random() < 0.5 else ['scripted', rng.randrange(1 << 20)],
+                    steps=rng.choice([1, 2, 3, 4]) if dim == 2 else rng.choice([1, 2]), cap=600)
+        case['lmax'] = case['lmin'] + 1
     elif strat == 'da':
         case['a'] = [0] * dim
         case['comps'] = [[[abs(c), e] for c, e in terms] for terms in comps]
         case['ref'] = [float(x) if x != 0 else 1.0 for x in A.poly_integral(case['comps'], case['a'], b)]
         case['max_points'] = rng.choice([30, 60, 100]) if dim == 2 else rng.choice([100, 200])
-    else:
+        if rng.random() < 0.4:
+            case['pre'] = [rng.choice([1, 2]), rng.choice([10, 30])]       # an earlier perform_combi(minv, 2, max points) on the same object
+    elif strat == 'std':
         case.update(lmin=rng.choice([1, 1, 2]), boundary=rng.random() < 0.8)
         case['lmax'] = case['lmin'] + (rng.choice([0, 1, 2, 3]) if dim == 2 else rng.choice([0, 1, 2]))
         if rng.random() < 0.3:
@@ -72,41 +193,117 @@ def gen_case(rng, quick=True):
             case['pre'] = [l0, l0 + rng.choice([0, 1, 2])]
     return case
 
+
+def in_scope(case):
+    """the quantifier of the property names extend-split in its default coarsening version 0; versions 1, 2 and 3 keep stale per-area
+    results after a scheme change on the unchanged tree (1: rarely, e.g. Clenshaw-Curtis + automatic_extend_split; 2, 3: often): for
+    them the bookkeeping is compared (replay, flags, invariant, sum of the stored area results), not the recomputation"""
+    return not (case['strat'] == 'es' and case.get('version', 0) != 0)
+
 # ---------------------------------------------------------------------------------------------- implementation
 
 
-def _fresh_total(sc, case):
-    """independent recomputation on a (deep copy of the) instance: fresh grid + fresh integrand, the instance only tells
-    the structure (areas, scheme, coarsened level vectors / 1D point sets)"""
+def _coarsen_v0(levelvec, coarsening, lmin, seen):
+    """extend-split coarsening version 0, written out independently of the library: the coarsened level vector relative to lmin
+    of a component grid on an area with the given coarsening value, or None when the grid does not contribute there"""
+    lv = [int(x) for x in levelvec]
+    srt = sorted(lv, reverse=True)
+    if srt[0] - srt[1] < coarsening:
+        return None
+    temp = list(lv)
+    temp[temp.index(max(temp))] -= coarsening
+    key = tuple(temp)
+    if key in seen and seen[key] != tuple(lv):
+        return None                      # collision: this coarsened grid is already accounted for by another component grid
+    seen[key] = tuple(lv)
+    return [t - lmin for t in temp]
+
+
+def _cell_value(f, cell, lmin, a, b):
+    """hierarchical contribution of one cell of the cell scheme, written out independently: inclusion-exclusion over the parents in
+    the dimensions refined beyond lmin of the trapezoidal rule on the cell applied to the multilinear interpolant of the parent's corners"""
     import numpy as np
-    from sparseSpACE.Grid import TrapezoidalGrid, GlobalTrapezoidalGrid
+    dim = len(cell.start)
+    lev = [int(x) for x in cell.levelvec]
+    free = [d for d in range(dim) if lev[d] > lmin[d]]
+    total = None
+    corners = list(itertools.product(*[[cell.start[d], cell.end[d]] for d in range(dim)]))
+    vol = 1.0
+    for d in range(dim):
+        vol *= float(cell.end[d]) - float(cell.start[d])
+    for k in range(len(free) + 1):
+        for sub in itertools.combinations(free, k):
+            ps, pe = [float(x) for x in cell.start], [float(x) for x in cell.end]
+            for d in sub:
+                w = (float(b[d]) - float(a[d])) / 2 ** (lev[d] - 1)
+                idx = int(round((float(cell.start[d]) - float(a[d])) / (w / 2)))
+                if idx % 2 == 1:
+                    ps[d] = pe[d] - w
+                else:
+                    pe[d] = ps[d] + w
+            # multilinear interpolant of the parent's corner values at the cell's corners
+            pc = list(itertools.product(*[[ps[d], pe[d]] for d in range(dim)]))
+            pv = [np.asarray(f.eval(p), dtype=float) for p in pc]
+            s = 0.0
+            for c in corners:
+                val = 0.0
+                for p, v in zip(pc, pv):
+                    wgt = 1.0
+                    for d in range(dim):
+                        t = (float(c[d]) - ps[d]) / (pe[d] - ps[d])
+                        wgt *= t if p[d] == pe[d] else 1.0 - t
+                    val = val + wgt * v
+                s = s + val
+            contrib = s * (0.5 ** dim * vol) * ((-1) ** k)
+            total = contrib if total is None else total + contrib
+    return total
+
+
+def _fresh_total(sc, case):
+    """independent recomputation on a (deep copy of the) instance: fresh grid + fresh integrand + fresh operation, the instance only
+    tells the structure (areas, scheme, coarsened level vectors / 1D point sets).  Returns (total, scale, total by the independent
+    coarsening rule or None)."""
+    import numpy as np
     f = A.make_function(case['comps'])
     a = np.array([float(x) for x in case['a']]); b = np.array([float(x) for x in case['b']])
-    total = np.zeros(len(case['comps']))
-    scale = np.zeros(len(case['comps']))
+    n = len(case['comps'])
+    total, scale, own = np.zeros(n), np.zeros(n), None
     strat = case['strat']
     if strat == 'dw':
+        op2 = A.make_operation(case, f, a, b)
+        g = A.make_global_grid(case, a, b, op2)
         for cg in sc.scheme:
             coords, levels, _ = sc.get_point_coord_for_each_dim(cg.levelvector)
-            g = GlobalTrapezoidalGrid(a, b, boundary=case.get('boundary', True), modified_basis=False)
             g.set_grid(coords, levels)
             x = np.asarray(g.integrate(f, cg.levelvector, a, b), dtype=float).ravel() * cg.coefficient
             total += x; scale += abs(x)
     elif strat == 'es':
         g = A.make_local_grid(case, a, b)
+        v0 = case.get('version', 0) == 0
+        own = np.zeros(n) if v0 else None
         for area in sc.refinement.get_objects():
             area.levelvec_dict = {}
+            seen = {}
             for cg in sc.scheme:
                 lv, do = sc.coarsen_grid(cg.levelvector, area)
                 if do:
                     x = np.asarray(g.integrate(f, lv, area.start, area.end), dtype=float).ravel() * cg.coefficient
                     total += x; scale += abs(x)
+                if v0:
+                    lv2 = _coarsen_v0(cg.levelvector, int(area.coarseningValue), int(sc.lmin[0]), seen)
+                    if lv2 is not None:
+                        own += np.asarray(g.integrate(f, lv2, area.start, area.end), dtype=float).ravel() * cg.coefficient
+    elif strat == 'cell':
+        # the driver evaluates every cell once per component grid of self.scheme (the component grid is not used by the cell scheme)
+        for cell in sc.refinement.get_objects():
+            x = np.atleast_1d(_cell_value(f, cell, [int(v) for v in sc.lmin], a, b)).ravel() * len(sc.scheme)
+            total += x; scale += abs(x)
     else:
         g = A.make_local_grid(case, a, b)
         for cg in sc.scheme:
             x = np.asarray(g.integrate(f, cg.levelvector, a, b), dtype=float).ravel() * cg.coefficient
             total += x; scale += abs(x)
-    return A.vec(total), A.vec(scale)
+    return A.vec(total), A.vec(scale), (A.vec(own) if own is not None else None)
 
 
 def _rule(sc, case):
@@ -120,16 +317,20 @@ def _rule(sc, case):
     return dict(points=[[float(c) for c in q] for q in pts], weights=[A.fl(x) for x in wts], comp=comp)
 
 
+def _has_areas(case):
+    return case['strat'] in ('es', 'cell')
+
+
 def _stop_record(sa, op, case, ret, with_rule):
     import numpy as np
-    rec = dict(reported=A.vec(ret[3]), integral=A.vec(op.integral), evaluations=A.fl(ret[4]))
+    rec = dict(reported=A.vec(ret[3]), integral=A.vec(op.integral), evaluations=A.fl(ret[4]), points=int(sa.get_total_num_points()))
     rv = sa.refinement.value
     rec['container'] = A.vec(rv) if np.ndim(rv) > 0 and np.size(rv) == len(case['comps']) else None
-    if case['strat'] == 'es':
+    if _has_areas(case):
         rec['areas'] = sorted([op.aid(o), A.vec(o.value)] for o in sa.refinement.get_objects())
         rec['new'] = sorted(op.aid(o) for o in sa.get_new_areas())
     sc = copy.deepcopy(sa)
-    rec['fresh'], rec['scale'] = _fresh_total(sc, case)
+    rec['fresh'], rec['scale'], rec['fresh_own'] = _fresh_total(sc, case)
     sc = copy.deepcopy(sa)
     try:
         with A.quiet():
@@ -138,6 +339,8 @@ def _stop_record(sa, op, case, ret, with_rule):
         with A.quiet():
             fin2 = sc.evaluate_final_combi()
         rec['final_combi_twice'] = A.vec(fin2[0])
+        rv2 = sc.refinement.value
+        rec['final_container'] = A.vec(rv2) if np.ndim(rv2) > 0 and np.size(rv2) == len(case['comps']) else None
     except Exception as e:  # observable
         rec['final_combi'] = 'exc:' + type(e).__name__
     if with_rule:
@@ -148,67 +351,128 @@ def _stop_record(sa, op, case, ret, with_rule):
     return rec
 
 
+def _logging_classes():
+    from sparseSpACE.GridOperation import UncertaintyQuantification
+    return A.make_logging_integration(), A.make_logging_integration(UncertaintyQuantification)
+
+
+def _build(case, logging=True, op=None):
+    if logging:
+        LI, LUQ = _logging_classes()
+        sa, op, f, eo = A.build(case, integration_cls=LI, uq_cls=LUQ, op=op, wrap=A.mark_main_evaluation)
+    else:
+        sa, op, f, eo = A.build(case, op=op)
+    if case.get('recalc') and case['strat'] in ('es', 'dw'):
+        sa.refinements_for_recalculate = case['recalc']          # public attribute (default 100): recalculation after that many refinements
+    return sa, op, f, eo
+
+
+def _perform_kw(case):
+    return dict(recalculate_frequently=True) if case.get('recalc') else {}
+
+
 def impl_run(case):
     import numpy as np
     strat = case['strat']
-    LI = A.make_logging_integration()
     if strat == 'std':
-        sc, op, f, _ = A.build(case, integration_cls=LI)
+        sc, op, f, _ = _build(case)
         with A.quiet():
             if case.get('pre'):       # an earlier request with other levels on the same object
                 sc.perform_operation(case['pre'][0], case['pre'][1])
             r = sc.perform_operation(case['lmin'], case['lmax'])
-        fresh, scale = _fresh_total(sc, case)
+        fresh, scale, _ = _fresh_total(sc, case)
         return dict(reported=A.vec(r[2]), fresh=fresh, scale=scale, rule=_rule(sc, case),
                     scheme=[[[int(x) for x in g.levelvector], A.fl(g.coefficient)] for g in sc.scheme])
     if strat == 'da':
-        da, op, f, _ = A.build(case, integration_cls=LI)
+        da, op, f, _ = _build(case)
         A.guard_dimadaptive(da)
         with A.quiet():
+            if case.get('pre'):
+                da.perform_combi(case['pre'][0], 2, -1.0, max_number_of_points=case['pre'][1])
+                A.guard_dimadaptive(da)
             r = da.perform_combi(case['lmin'], case['lmax'], -1.0, max_number_of_points=case['max_points'])
-        fresh, scale = _fresh_total(da, case)
+        fresh, scale, _ = _fresh_total(da, case)
         return dict(reported=A.vec(r[2]), fresh=fresh, scale=scale,
                     scheme=[[[int(x) for x in g.levelvector], A.fl(g.coefficient)] for g in da.scheme])
-    sa, op, f, eo = A.build(case, integration_cls=LI)
+    sa, op, f, eo = _build(case)
     offset = 0
     if case.get('warmup'):
         # short history on ONE operation/grid/function object (as the repo's tests reuse them): a first instance is run for one
         # refinement step, then the instance under test is created on the same operation
-        A.perform(sa, eo, case, -1.0, 1, 1)
+        A.perform(sa, eo, case, -1.0, 1, 1, **_perform_kw(case))
         with A.quiet():
             sa.refine()
         A.cont(sa, -1.0, 1, 1)
-        sa, op, f, eo = A.build(case, op=op)
+        sa, op, f, eo = _build(case, op=op)
         offset = len(op.events)
     stops, rets = [], []
-    ret = A.perform(sa, eo, case, -1.0, 1, 1)
+    ret = A.perform(sa, eo, case, -1.0, 1, 1, **_perform_kw(case))
     for k in range(case['steps'] + 1):
         op.events.append([6])
         rets.append((ret[3], np.array(ret[3], copy=True)))
-        rec = _stop_record(sa, op, case, ret, with_rule=(strat == 'dw'))
+        rec = _stop_record(sa, op, case, ret, with_rule=(strat == 'dw' and case.get('op', 'int') == 'int' and case.get('ggrid', 'trap') in NODAL_GLOBAL))
         rec['aliased'] = [i for i, (live, snap) in enumerate(rets[:-1]) if not np.array_equal(live, snap)]
         stops.append(rec)
         if k == case['steps'] or sa.get_total_num_points() > case['cap']:
             break
-        mark = len(op.events)
         with A.quiet():
             sa.refine()
-        rec['added'] = sorted(op.aid(o) for o in sa.get_new_areas()) if strat == 'es' else []
+        if _has_areas(case):
+            rec['added'] = sorted(op.aid(o) for o in sa.get_new_areas())
+            rec['all_new'] = len(sa.get_new_areas()) == len(sa.refinement.get_objects())
+            if rec['all_new'] and case.get('recalc'):
+                rec['reinit'] = True             # the recalculation fired: reinit_new_objects
+                op.events.append([11])
+        else:
+            rec['added'] = []
         ret = A.cont(sa, -1.0, 1, 1)
-    # (d) uninterrupted runs with the same final limits, with and without re-evaluation at the end
     limit = int(sa.get_total_num_points()) - 1
+    if case.get('restart'):
+        # continue from the refinement reached so far through the refinement_container argument: reinit_new_objects marks every
+        # object new, everything is evaluated again
+        stops[-1]['reinit'] = True
+        op.events.append([11])                   # reinit_new_objects (the container is not an object the operation sees)
+        ret = A.perform(sa, eo, case, -1.0, 1, 1, refinement_container=sa.refinement, **_perform_kw(case))
+        op.events.append([6])
+        rec = _stop_record(sa, op, case, ret, with_rule=False)
+        rec['aliased'] = []
+        rec['restart'] = True
+        stops.append(rec)
+    # (d) uninterrupted runs with the same final limits, with and without re-evaluation at the end; the run without also records
+    # the solutions of every evaluation (solutions_storage)
     out = dict(stops=stops, events=op.events[offset:], points=int(sa.get_total_num_points()))
     for flag in (False, True):
-        sb, opb, fb, eob = A.build(case)
-        rb = A.perform(sb, eob, case, -1.0, 1, limit, reevaluate_at_end=flag)
+        sb, opb, fb, eob = _build(case, logging=False)
+        kw = _perform_kw(case)
+        storage = None
+        if not flag:
+            storage = {}
+            kw['solutions_storage'] = storage
+        rb = A.perform(sb, eob, case, -1.0, 1, limit, reevaluate_at_end=flag, **kw)
         out['single_%s' % flag] = A.vec(rb[3])
+        if storage is not None:
+            out['storage'] = sorted([int(k), A.vec(v)] for k, v in storage.items())
+            vals = list(storage.values())
+            out['storage_aliased'] = any(x is y for i, x in enumerate(vals) for y in vals[:i]) or any(v is opb.integral for v in vals)
     return out
+
+
+def impl_probe(case):
+    """an option that is excluded because the unchanged code raises: does it still raise?"""
+    sa, op, f, eo = _build(case, logging=False)
+    A.perform(sa, eo, case, -1.0, 1, 1)
+    return 'runs'
 
 # ---------------------------------------------------------------------------------------------- model encoding / comparison
 
 
 def q(h):
     return sx.rat(A.unfl(h))
+
+
+def xq(x, j):
+    """component j of a logged partial result (a grid without points integrates to the scalar 0.0)"""
+    return q(x[j] if len(x) > j else x[0])
 
 
 def close(a_hex, m, scale):
@@ -219,36 +483,66 @@ def close(a_hex, m, scale):
 
 
 def events_for_component(events, j):
+    """the event log as the model replays it: a main evaluation is what the model prescribes (added to area, container and result),
+    a side evaluation touches the area value only, whatever flags the implementation passed"""
     out = []
     for e in events:
         if e[0] == 2:
-            out.append([2, e[1], q(e[2][j]), e[3], e[4]])
+            main = e[5] if len(e) > 5 else True
+            out.append([2, e[1], xq(e[2], j), 1, 1] if main else [7, e[1], xq(e[2], j)])
+        elif e[0] == 9:
+            out.append([2, e[1], xq(e[2], j), 1, 1])
         elif e[0] == 5:
-            out.append([5, q(e[1][j])])
+            out.append([5, xq(e[1], j)])
+        elif e[0] == 8:
+            out.append([8, e[1]])
         else:
             out.append(e)
     return out
 
 
+def flag_mismatches(events):
+    """evaluate_area calls whose flags differ from the model's prescription: main = (result, container), side = (neither)"""
+    bad = []
+    for n, e in enumerate(events):
+        if e[0] == 2:
+            main = e[5] if len(e) > 5 else True
+            if (bool(e[3]), bool(e[4])) != ((True, True) if main else (False, False)):
+                bad.append(dict(event=n, area=e[1], main=main, apply_to_combi_result=bool(e[3]), container_passed=bool(e[4])))
+    return bad
+
+
 def steps_for_component(r, j):
-    """derive the driver steps (Model/Accum.v dstep) from the raw log: evaluate(parts of the new areas) / refine(removed, added)"""
+    """derive the driver steps (Model/Accum.v dstep) from the raw log: side / estimate evaluations, evaluate(parts of the new
+    areas), refine(removed, added).  Side evaluations made while refine() runs are placed after the refine step (they touch new or
+    temporary areas only).  Derivation stops at a recalculation (reinit_new_objects)."""
     steps, initial = [], None
     parts, order = {}, []
     removed = None
+    pending = []
     stop = 0
     dw = False
+    nstops = 0
     for e in r['events']:
         if e[0] == 1:
             if e[1] not in parts:
                 parts[e[1]] = []; order.append(e[1])
-        elif e[0] == 2:
-            parts.setdefault(e[1], []).append(q(e[2][j]))
+        elif e[0] == 2 and (e[5] if len(e) > 5 else True):
+            parts.setdefault(e[1], []).append(xq(e[2], j))
             if e[1] not in order:
                 order.append(e[1])
+        elif e[0] == 9:
+            parts.setdefault(e[1], []).append(xq(e[2], j))
+            if e[1] not in order:
+                order.append(e[1])
+        elif e[0] == 2:
+            pending.append([3, e[1], xq(e[2], j)])
+        elif e[0] == 8:
+            pending.append([4, e[1]])
         elif e[0] == 4:
             dw = True; parts = {'dw': []}
         elif e[0] == 5:
-            parts['dw'].append(q(e[1][j]))
+            parts['dw'].append(xq(e[1], j))
         elif e[0] == 3:
             removed = e[1]
         elif e[0] == 6:
@@ -258,102 +552,215 @@ def steps_for_component(r, j):
                 if initial is None:
                     initial = list(order)
                 else:
-                    steps.append([1, removed or [], r['stops'][stop - 1].get('added', [])])
+                    prev = r['stops'][stop - 1]
+                    if prev.get('reinit'):
+                        break
+                    steps.append([1, removed or [], prev.get('added', [])])
+                # estimate evaluations made by calc_error during this evaluation belong behind it; model-wise they are no-ops
+                steps += [p for p in pending if p[0] == 3]
                 steps.append([0, [[i, parts[i]] for i in order]])
-            parts, order, removed = {}, [], None
+                steps += [p for p in pending if p[0] == 4]
+            parts, order, removed, pending = {}, [], None, []
             stop += 1
-    return initial or [], steps
+            nstops += 1
+    return initial or [], steps, nstops
+
+
+def make_sig(case):
+    sig = {'strat': case['strat']}
+    for k in ('version', 'single_dim', 'auto', 'grid', 'ggrid'):
+        if k in case:
+            sig[k] = case[k]
+    sig['recalc'] = bool(case.get('recalc'))
+    sig['restart'] = bool(case.get('restart'))
+    sig['op'] = case.get('op', 'int') if isinstance(case.get('op', 'int'), str) else 'uq'
+    return sig
 
 
 def run_adaptive_checks(chk, case, r, mjobs):
     nout = len(case['comps'])
     base = len(mjobs)
+    nsteps_stops = 0
     for j in range(nout):
         mjobs.append((0, events_for_component(r['events'], j)))
-        initial, steps = steps_for_component(r, j)
-        mjobs.append((1, [0, initial, steps]))
-        mjobs.append((1, [1, initial, steps]))     # repaired variant: new-object marker cleared once the new areas are evaluated
+        initial, steps, nsteps_stops = steps_for_component(r, j)
+        mjobs.append((1, [1, 0, initial, steps]))     # the (repaired) driver with its side evaluations
+        mjobs.append((1, [1, 1, initial, steps]))     # ... and without them (Accum.strip_sides)
 
     def evaluate(mres):
-        sig = {'strat': case['strat']}
+        sig = make_sig(case)
         strat = case['strat']
-        fcase = dict(case)
+        scope = in_scope(case)
         nst = len(r['stops'])
+        areas_strat = _has_areas(case)
+        # ---- flags of every evaluate_area call against the model's prescription
+        oracle_bad_any = False
+        recalc_fired = False
+        stale_any = False
         for k, st in enumerate(r['stops']):
             fk = dict(case, steps=k)
             scale = [Fraction(A.unfl(x)) for x in st['scale']]
             rep = st['reported']
             # ---- property predicate on the implementation alone
             indep_ok = all(close(rep[j], q(st['fresh'][j]), scale[j]) for j in range(nout))
-            if not indep_ok:
+            own_ok = st.get('fresh_own') is None or all(close(rep[j], q(st['fresh_own'][j]), scale[j]) for j in range(nout))
+            sum_ok = True
+            if areas_strat:
+                sums = [sum((Fraction(A.unfl(v[j])) for _, v in st['areas']), Fraction(0)) for j in range(nout)]
+                sum_ok = all(close(rep[j], sums[j], scale[j]) for j in range(nout))
+            if k > 0 and r['stops'][k - 1].get('reinit'):
+                recalc_fired = True
+            if recalc_fired and strat == 'es' and not (indep_ok and sum_ok):
+                # reinit_new_objects (recalculate_frequently / refinement_container) resets refinement.value and marks every area new,
+                # operation.integral is kept: every area is counted twice (C05_recalculate_unchanged_refuted); later stops of this
+                # case are consequences
+                if st.get('restart'):
+                    chk.violation('oracle:combination', 'restart-double-counts', sig, dict(case, steps=k - 1),
+                                  dict(stop=k, reported=[A.unfl(x) for x in rep], independent=[A.unfl(x) for x in st['fresh']],
+                                       how='performSpatiallyAdaptiv(.., refinement_container=instance.refinement) after stop %d' % (k - 1)))
+                else:
+                    chk.violation('oracle:combination', 'recalculation-double-counts', sig, fk,
+                                  dict(stop=k, reported=[A.unfl(x) for x in rep], independent=[A.unfl(x) for x in st['fresh']],
+                                       refinements_for_recalculate=case['recalc']))
+                chk.traces += 1
+                return
+            bad_here = False
+            if scope and not indep_ok:
+                bad_here = True
                 chk.violation('oracle:combination', 'combination-differs', sig, fk,
                               dict(stop=k, reported=[A.unfl(x) for x in rep], independent=[A.unfl(x) for x in st['fresh']]))
-            if st['container'] is not None and st['container'] != st['integral']:
+            elif scope and not own_ok:
+                bad_here = True
+                chk.violation('oracle:combination', 'combination-differs', dict(sig, rule='independent-coarsening'), fk,
+                              dict(stop=k, reported=[A.unfl(x) for x in rep], independent=[A.unfl(x) for x in st['fresh_own']]))
+            elif not scope and not indep_ok:
+                stale_any = True
+                chk.count('es version 1/2/3: stored area results stale after a scheme change (outside the quantifier; bookkeeping compared only)')
+            if not sum_ok:
+                bad_here = True
+                chk.violation('oracle:combination', 'sum-of-area-results-differs', sig, fk,
+                              dict(stop=k, reported=[A.unfl(x) for x in rep], sum_of_area_values=[float(x) for x in sums]))
+            if st['container'] is not None and (st['container'] != st['integral'] if not recalc_fired else
+                                                not all(close(st['container'][j], q(st['integral'][j]), scale[j]) for j in range(nout))):
+                bad_here = True
                 chk.violation('oracle:combination', 'container-differs', sig, fk,
                               dict(stop=k, refinement_value=[A.unfl(x) for x in st['container']], integral=[A.unfl(x) for x in st['integral']]))
             if isinstance(st.get('final_combi'), str):
                 chk.violation('oracle:reevaluation', 'reevaluation-raises', dict(sig, via='evaluate_final_combi'), fk, dict(stop=k, exc=st['final_combi']))
-            else:
+            elif scope or indep_ok:
                 if not all(close(st['final_combi'][j], q(rep[j]), scale[j]) for j in range(nout)):
+                    bad_here = True
                     chk.violation('oracle:reevaluation', 'reevaluation-differs', dict(sig, via='evaluate_final_combi'), fk,
                                   dict(stop=k, reported=[A.unfl(x) for x in rep], evaluate_final_combi=[A.unfl(x) for x in st['final_combi']]))
                 elif not all(close(st['final_combi_twice'][j], q(rep[j]), scale[j]) for j in range(nout)):
+                    bad_here = True
                     chk.violation('oracle:reevaluation', 'reevaluation-not-idempotent', dict(sig, via='evaluate_final_combi'), fk,
                                   dict(stop=k, reported=[A.unfl(x) for x in rep], second=[A.unfl(x) for x in st['final_combi_twice']]))
+                elif st.get('final_container') is not None and not all(close(st['final_container'][j], q(st['final_combi_twice'][j]), scale[j]) for j in range(nout)):
+                    bad_here = True
+                    chk.violation('oracle:reevaluation', 'reevaluation-container-differs', dict(sig, via='evaluate_final_combi'), fk,
+                                  dict(stop=k, result=[A.unfl(x) for x in st['final_combi_twice']], refinement_value=[A.unfl(x) for x in st['final_container']]))
             if st['aliased']:
                 chk.violation('oracle:combination', 'result-aliased', sig, dict(case, steps=k),
                               dict(stop=k, why='the array returned at stop(s) %s changed when the run was continued' % st['aliased']))
             if 'rule' in st:
                 check_rule(chk, case, fk, st['rule'], rep, scale, sig, mjobs_late, k)
+            oracle_bad_any = oracle_bad_any or bad_here
             # ---- model: raw replay and driver-step replay
             for j in range(nout):
                 snaps = mres[base + 3 * j]
                 trace = mres[base + 3 * j + 1]
-                trace_clear = mres[base + 3 * j + 2]
+                trace_strip = mres[base + 3 * j + 2]
                 if sx.is_err(snaps) or k >= len(snaps):
                     chk.violation('corr:C05/replay', 'model-rejects', sig, fk, dict(model=str(snaps)[:300]), failing_input=False)
                     return
-                total, cont, areas, _new = snaps[k]
+                total, cont, areas, _new, inv = snaps[k]
                 if not close(st['integral'][j], sx.q(total), scale[j]) or not close(rep[j], sx.q(total), scale[j]):
                     chk.violation('corr:C05/replay', 'running-total-differs', sig, fk,
-                                  dict(stop=k, component=j, model=float(sx.q(total)), impl=A.unfl(st['integral'][j]), reported=A.unfl(rep[j])),
-                                  failing_input=not indep_ok)
+                                  dict(stop=k, component=j, model=float(sx.q(total)), impl=A.unfl(st['integral'][j]), reported=A.unfl(rep[j]),
+                                       note='model = main evaluations added, side evaluations not (Accum.ASide)'),
+                                  failing_input=bad_here)
                 if st['container'] is not None and not close(st['container'][j], sx.q(cont), scale[j]):
                     chk.violation('corr:C05/replay', 'container-value-differs', sig, fk,
-                                  dict(stop=k, component=j, model=float(sx.q(cont)), impl=A.unfl(st['container'][j])), failing_input=False)
-                if strat == 'es':
+                                  dict(stop=k, component=j, model=float(sx.q(cont)), impl=A.unfl(st['container'][j])), failing_input=bad_here)
+                if areas_strat:
                     ma = {i: sx.q(v) for i, v in areas}
                     for i, v in st['areas']:
                         if i not in ma or not close(v[j], ma[i], scale[j]):
                             chk.violation('corr:C05/replay', 'area-value-differs', sig, fk,
-                                          dict(stop=k, component=j, area=i, model=str(ma.get(i)), impl=A.unfl(v[j])), failing_input=False)
+                                          dict(stop=k, component=j, area=i, model=str(ma.get(i)), impl=A.unfl(v[j])), failing_input=bad_here)
                             break
                     if sorted(ma) != [i for i, _ in st['areas']]:
                         chk.violation('corr:C05/replay', 'area-set-differs', sig, fk, dict(stop=k, model=sorted(ma), impl=[i for i, _ in st['areas']]),
                                       failing_input=False)
-                # driver steps: state after the evaluate step of stop k
-                idx = k if strat == 'dw' else 2 * k
-                if sx.is_err(trace) or idx >= len(trace):
+                    if inv != 1 and recalc_fired and strat == 'es':
+                        # the missing reset after reinit_new_objects again, with an earlier result so small (integrand integrating to ~0)
+                        # that the float tolerance of the oracle hides the doubling: the exact invariant check of the model sees it
+                        chk.violation('checker:C05/inv_checkb', 'restart-double-counts' if st.get('restart') else 'recalculation-double-counts', sig,
+                                      dict(case, steps=k - 1) if st.get('restart') else fk,
+                                      dict(stop=k, component=j, note='exact invariant check on the replayed log; the doubled earlier result is below the float tolerance',
+                                           reported=[A.unfl(x) for x in rep], independent=[A.unfl(x) for x in st['fresh']]), failing_input=True)
+                        chk.traces += 1
+                        return
+                    if inv != 1:
+                        # verified checker (C05_inv_checkb_sound) on the replayed state: running total = sum of the stored area results
+                        chk.violation('checker:C05/inv_checkb', 'accumulator-invariant-fails', sig, fk, dict(stop=k, component=j), failing_input=bad_here)
+                    else:
+                        chk.count('inv_checkb-true-on-snapshot')
+                # driver steps: state after the evaluate step of stop k, with and without side evaluations
+                if k >= nsteps_stops:
+                    continue
+                if sx.is_err(trace) or k >= len(trace) or sx.is_err(trace_strip) or k >= len(trace_strip):
                     chk.violation('corr:C05/steps', 'model-rejects', sig, fk, dict(model=str(trace)[:300]), failing_input=False)
                     return
-                t2, c2, a2, n2 = trace[idx]
-                if sx.q(t2) != sx.q(total) or (strat == 'es' and sorted((i, sx.q(v)) for i, v in a2) != sorted((i, sx.q(v)) for i, v in areas)):
+                t2, c2, a2, n2, _i2 = trace[k]
+                t3, c3, a3, n3, _i3 = trace_strip[k]
+                if sx.q(t2) != sx.q(total) or (areas_strat and sorted((i, sx.q(v)) for i, v in a2) != sorted((i, sx.q(v)) for i, v in areas)):
                     chk.violation('corr:C05/steps', 'driver-steps-differ-from-event-log', sig, fk,
                                   dict(stop=k, component=j, steps_total=float(sx.q(t2)), log_total=float(sx.q(total))), failing_input=False)
-                if strat == 'es' and sorted(n2) != st['new']:
-                    # the code as it is leaves the marker set until the next refine(); the repaired driver (fixes/C14-*) clears it
-                    if not sx.is_err(trace_clear) and idx < len(trace_clear) and sorted(trace_clear[idx][3]) == st['new']:
-                        chk.count('new-marker-cleared-after-evaluation (repaired driver)')
-                    else:
-                        chk.violation('corr:C05/steps', 'new-marker-differs', sig, fk, dict(stop=k, model=sorted(n2), impl=st['new']), failing_input=False)
-        # (d) re-evaluation at the end of an uninterrupted run
-        last = r['stops'][-1]
+                if (sx.q(t2), sx.q(c2), sorted((i, sx.q(v)) for i, v in a2)) != (sx.q(t3), sx.q(c3), sorted((i, sx.q(v)) for i, v in a3)):
+                    chk.violation('corr:C05/steps', 'side-evaluations-visible', sig, fk,
+                                  dict(stop=k, component=j, with_sides=float(sx.q(t2)), without=float(sx.q(t3))), failing_input=False)
+                if areas_strat and sorted(n2) != st['new']:
+                    chk.violation('corr:C05/steps', 'new-marker-differs', sig, fk, dict(stop=k, model=sorted(n2), impl=st['new']), failing_input=False)
+        # ---- flags of every evaluate_area call against the model's prescription
+        bad = flag_mismatches(r['events'])
+        if bad:
+            chk.violation('corr:C05/flags', 'evaluation-flags-differ', dict(sig, main=bad[0]['main']), dict(case, steps=nst - 1),
+                          dict(first=bad[0], count=len(bad),
+                               why='main evaluations must be applied to result and container, side evaluations (outside compute_solutions) to neither'),
+                          failing_input=oracle_bad_any)
+        # (d) re-evaluation at the end of an uninterrupted run; solutions_storage
+        last = [st for st in r['stops'] if not st.get('restart')][-1]
         scale = [Fraction(A.unfl(x)) for x in last['scale']]
-        if not all(close(r['single_False'][j], q(last['reported'][j]), scale[j]) for j in range(nout)):
+        same_as_stepwise = all(close(r['single_False'][j], q(last['reported'][j]), scale[j]) for j in range(nout))
+        if not same_as_stepwise:
             chk.count('single-run-differs-from-stepwise (C14 territory)')
-        if not all(close(r['single_True'][j], q(r['single_False'][j]), scale[j]) for j in range(nout)):
+        if not stale_any and not recalc_fired and not all(close(r['single_True'][j], q(r['single_False'][j]), scale[j]) for j in range(nout)):
             chk.violation('oracle:reevaluation', 'reevaluation-differs', dict(sig, via='reevaluate_at_end'), dict(case, steps=nst - 1, limit=r['points'] - 1),
                           dict(without=[A.unfl(x) for x in r['single_False']], with_reevaluate_at_end=[A.unfl(x) for x in r['single_True']]))
+        if r.get('storage_aliased'):
+            chk.violation('oracle:combination', 'result-aliased', dict(sig, via='solutions_storage'), dict(case, steps=nst - 1, limit=r['points'] - 1),
+                          dict(why='entries of solutions_storage share one array (or the live accumulator)'))
+        if same_as_stepwise and 'storage' in r:
+            store = {k: v for k, v in r['storage']}
+            npts = [st['points'] for st in r['stops']]
+            for k, st in enumerate(r['stops']):
+                if st.get('restart'):
+                    continue
+                if npts.count(st['points']) > 1:          # the dictionary is keyed by the point count: a later evaluation with the same count overwrites
+                    chk.count('solutions_storage: key collision (same point count at two evaluations)')
+                    continue
+                v = store.get(st['points'])
+                if v is None:
+                    chk.count('solutions_storage: stop without entry (evaluation counts differ)')
+                    continue
+                sc = [Fraction(A.unfl(x)) for x in st['scale']]
+                if not all(close(v[j], q(st['reported'][j]), sc[j]) for j in range(nout)):
+                    chk.violation('oracle:combination', 'solutions-storage-differs', sig, dict(case, steps=nst - 1, limit=r['points'] - 1),
+                                  dict(stop=k, points=st['points'], stored=[A.unfl(x) for x in v], reported_at_that_stop=[A.unfl(x) for x in st['reported']]))
+                else:
+                    chk.count('solutions_storage entry = value reported at that stop')
         chk.traces += 1
     mjobs_late = []
     evaluate.late = mjobs_late
@@ -385,7 +792,7 @@ def run_simple_checks(chk, case, r, mjobs):
     late = []
 
     def evaluate(mres):
-        sig = {'strat': case['strat']}
+        sig = make_sig(case)
         scale = [Fraction(A.unfl(x)) for x in r['scale']]
         if not all(close(r['reported'][j], q(r['fresh'][j]), scale[j]) for j in range(nout)):
             chk.violation('oracle:combination', 'combination-differs', sig, case,
@@ -427,11 +834,12 @@ def finish_rules(chk, todo):
         chk.count('rules-combined-by-model')
 
 
+_C2 = [[[1, [2, 0]], [3, [1, 1]]], [[2, [0, 2]], [1, [0, 0]]]]
 CORPUS = [
     # exemplars of the known findings: evaluate_final_combi / reevaluate_at_end double the result; returned array is the live accumulator
-    dict(strat='dw', a=[0, 0], b=[1, 1], comps=[[[1, [2, 0]], [3, [1, 1]]], [[2, [0, 2]], [1, [0, 0]]]], ref=None, norm=0, boundary=True, lmin=1, lmax=2,
+    dict(strat='dw', a=[0, 0], b=[1, 1], comps=_C2, ref=None, norm=0, boundary=True, lmin=1, lmax=2,
          seed=1, version=6, rebalancing=True, errcalc='lib', steps=2, cap=400),
-    dict(strat='es', a=[0, 0], b=[1, 1], comps=[[[1, [2, 0]], [3, [1, 1]]], [[2, [0, 2]], [1, [0, 0]]]], ref=None, norm=0, boundary=True, lmin=1, lmax=2,
+    dict(strat='es', a=[0, 0], b=[1, 1], comps=_C2, ref=None, norm=0, boundary=True, lmin=1, lmax=2,
          seed=2, nrbe=1, auto=False, errcalc='lib', steps=2, cap=500),
     dict(strat='es', a=[-1, -1], b=[1, 1], comps=[[[4, [0, 0]]]], ref=None, norm=0, boundary=True, lmin=1, lmax=2, seed=942289536, nrbe=1,
          auto=False, errcalc='lib', steps=0, cap=500),                                   # exemplar C05-final-combi-doubles
@@ -441,17 +849,83 @@ CORPUS = [
          auto=True, errcalc='lib', steps=2, cap=500, grid='cc'),                         # high-order grid + automatic extend/split
     dict(strat='std', a=[0, 0], b=[1, 1], comps=[[[1, [2, 0]], [3, [1, 1]]]], ref=None, norm=0, boundary=True, lmin=1, lmax=3, seed=3, pre=[2, 3]),
     dict(strat='da', a=[0, 0], b=[1, 1], comps=[[[1, [2, 0]], [3, [1, 1]]]], ref=[13 / 12], norm=0, boundary=True, lmin=1, lmax=2, seed=4, max_points=60),
+    # split_single_dim with a symmetric integrand: the twin errors tie, areas are split in both dimensions at once and
+    # calculate_new_twin_errors evaluates the new areas and their temporary twin parents as SIDE evaluations
+    dict(strat='es', a=[0, 0], b=[1, 1], comps=[[[1, [2, 0]], [1, [0, 2]], [2, [1, 1]]]], ref=None, norm=0, boundary=True, lmin=1, lmax=2, seed=5,
+         version=0, nrbe=1, auto=False, single_dim=True, errcalc='lib', steps=3, cap=500),
+    dict(strat='es', a=[0, 0, 0], b=[1, 1, 1], comps=[[[2, [1, 0, 0]], [2, [0, 1, 0]], [2, [0, 0, 1]]], [[1, [1, 1, 1]]]], ref=None, norm=0, boundary=True,
+         lmin=1, lmax=2, seed=6, version=1, nrbe=2, auto=False, single_dim=True, errcalc=['scripted', 77], steps=2, cap=900),
+    dict(strat='es', a=[0, 0], b=[1, 1], comps=[[[1, [3, 1]], [1, [1, 3]]]], ref=None, norm=0, boundary=True, lmin=1, lmax=2, seed=7,
+         version=0, nrbe=1, auto=True, single_dim=True, errcalc='lib', steps=3, cap=500),
+    # exemplar C05-recalculate-frequently-double-counts (refinements_for_recalculate lowered from 100 to 2)
+    dict(strat='es', a=[0, 0], b=[1, 1], comps=[[[1, [2, 0]], [3, [1, 1]]]], ref=None, norm=0, boundary=True, lmin=1, lmax=2, seed=8,
+         version=0, nrbe=1, auto=False, errcalc=['scripted', 11], steps=3, cap=500, recalc=2),
+    # exemplar C05-refinement-container-restart-double-counts
+    dict(strat='es', a=[0, 0], b=[1, 1], comps=[[[1, [2, 0]], [3, [1, 1]]]], ref=None, norm=0, boundary=True, lmin=1, lmax=2, seed=12,
+         version=0, nrbe=1, auto=False, errcalc=['scripted', 11], steps=1, cap=500, restart=True),
+    dict(strat='dw', a=[0, 0], b=[1, 1], comps=_C2, ref=None, norm=0, boundary=True, lmin=1, lmax=2, seed=13, version=6, rebalancing=True,
+         errcalc=['scripted', 11], steps=2, cap=400, restart=True),
+    dict(strat='cell', a=[0, 0], b=[1, 1], comps=_C2, ref=None, norm=0, boundary=True, lmin=1, lmax=2, seed=9, errcalc='lib', steps=3, cap=600),
+    dict(strat='dw', a=[0, -1], b=[1, 1], comps=_C2, ref=None, norm=0, boundary=True, lmin=1, lmax=2, seed=10, version=6, rebalancing=True,
+         errcalc='lib', steps=2, cap=400, op=['uq', 'Uniform'], ggrid='trapw', grid_surplusses=True, volume_weighting=True),
 ]
+
+
+def _count_options(chk, c):
+    hist = chk.extra.setdefault('option_histogram', {})
+
+    def put(name, value):
+        key = '%s.%s=%s' % (c['strat'], name, value)
+        hist[key] = hist.get(key, 0) + 1
+    put('dim', len(c['a']))
+    put('outputs', len(c['comps']))
+    put('history', 'warmup' if c.get('warmup') else 'pre' if c.get('pre') else 'fresh')
+    if c['strat'] in ('es', 'dw'):
+        put('reference_solution', c.get('ref') is not None)
+    if c['strat'] in ('es', 'dw', 'cell'):
+        put('errcalc', c['errcalc'] if c['errcalc'] == 'lib' else 'scripted')
+        put('steps', c['steps'])
+        put('lmin', c['lmin']); put('lmax', c['lmax'])
+    if c['strat'] == 'es':
+        put('version', c.get('version', 0)); put('automatic_extend_split', bool(c.get('auto'))); put('split_single_dim', bool(c.get('single_dim')))
+        put('number_of_refinements_before_extend', c.get('nrbe', 1)); put('grid', c.get('grid', 'trap'))
+        put('recalculate_frequently', c.get('recalc', False)); put('restart_with_refinement_container', bool(c.get('restart')))
+        put('single_dim x auto x version', '%s/%s/%s' % (bool(c.get('single_dim')), bool(c.get('auto')), c.get('version', 0)))
+    elif c['strat'] == 'dw':
+        put('version', c.get('version', 6)); put('rebalancing', c.get('rebalancing', True)); put('boundary', c.get('boundary', True))
+        put('chebyshev_points', c.get('chebyshev', False)); put('dim_adaptive', c.get('dim_adaptive', True))
+        put('use_volume_weighting', c.get('volume_weighting', False)); put('force_balanced_refinement_tree', c.get('force_balanced', False))
+        put('margin', c.get('margin', 'default')); put('grid', c.get('ggrid', 'trap'))
+        put('operation', 'Integration' if c.get('op', 'int') == 'int' else 'UncertaintyQuantification/%s' % (c['op'][1],))
+        put('recalculate_frequently', c.get('recalc', False)); put('restart_with_refinement_container', bool(c.get('restart')))
+    elif c['strat'] == 'std':
+        put('grid', c.get('grid', 'trap')); put('boundary', c.get('boundary', True)); put('levels', '%d..%d' % (c['lmin'], c['lmax']))
+    elif c['strat'] == 'da':
+        put('max_points', c['max_points'])
 
 
 def run(chk):
     chk.coq_obligations()
-    n = chk.n(170, 8000)
+    n = chk.n(230, 5000)
     cases = CORPUS + [gen_case(chk.rng, chk.quick) for _ in range(n)]
-    impl = run_impl(impl_run, cases, limit=200)
+    impl = run_impl(impl_run, cases, limit=240)
+    # options outside the envelope because the unchanged code raises: still raising?
+    probes = [e for e in EXCLUDED if e['probe']]
+    pcases = [dict(CORPUS[1], steps=0, **e['probe']) for e in probes]
+    chk.extra['excluded_options'] = []
+    for e, (st, r) in zip(probes, run_impl(impl_probe, pcases, limit=60)):
+        seen = r[0] if st == 'exc' else st
+        chk.extra['excluded_options'].append(dict(option=e['name'], expected=e['expect'], observed=seen, why=e['why']))
+        if st == 'ok':
+            chk.count('excluded-option-now-runs: ' + e['name'])
+    chk.extra['excluded_options'] += [dict(option=e['name'], expected=e['expect'], why=e['why']) for e in EXCLUDED if not e['probe']]
+    chk.extra['options_in_generator'] = OPTIONS
     mjobs, todo, keys, samples = [], [], [], []
+    nside = nest = nmulti = 0
     for c, (st, r) in zip(cases, impl):
-        chk.count('strat=' + c['strat']); chk.count('dim=%d' % len(c['a'])); chk.count('history=%s' % ('warmup' if c.get('warmup') else 'pre' if c.get('pre') else 'fresh')); chk.count('grid=%s%s' % (c.get('grid', 'trap'), '+auto' if c.get('auto') else ''))
+        chk.count('strat=' + c['strat']); chk.count('dim=%d' % len(c['a'])); chk.count('history=%s' % ('warmup' if c.get('warmup') else 'pre' if c.get('pre') else 'fresh'))
+        chk.count('grid=%s%s' % (c.get('grid', c.get('ggrid', 'trap')), '+auto' if c.get('auto') else ''))
+        _count_options(chk, c)
         if st != 'ok':
             where = r[1] if r else ''
             if st == 'exc' and r[0] == 'RuntimeError' and 'refinement selection does not terminate' in r[2]:
@@ -460,30 +934,67 @@ def run(chk):
             if st == 'exc' and r[0] == 'IndexError' and 'Function.py' in where:
                 chk.count('library-exception:empty-batch (C12)')
                 continue
-            chk.violation('corr:C05/replay', 'impl-exception', {'strat': c['strat'], 'exc': r[0] if r else st}, c, dict(impl=str(r)))
+            if st == 'exc' and r[0] == 'AssertionError' and c['strat'] == 'es' and c.get('version') == 3 and 'spatiallyAdaptiveExtendSplit.py' in where:
+                chk.count('skipped: es version 3 benefit assertion (%s; outside the quantifier)' % where)
+                continue
+            if st == 'exc' and r[0] == 'AssertionError' and c['strat'] == 'dw' and c.get('ggrid', 'trap') in ('simpson', 'romberg', 'highorder') \
+                    and ('sparseSpACE/Grid.py' in where or 'sparseSpACE/Extrapolation.py' in where):
+                # the global Simpson / high-order / Romberg weights assert the quality of their rule on strongly graded refinement trees (C09)
+                chk.count('skipped: quadrature-weight assertion of the %s grid (%s; C09)' % (c['ggrid'], where))
+                continue
+            if st == 'exc' and r[0] == 'AssertionError' and c['strat'] == 'es' and c.get('single_dim') and c.get('grid') and 'spatiallyAdaptiveExtendSplit.py' in where:
+                # parent estimation of the high-order grids counts the children of the split parent (get_sum_sibling_value: 2 or 2**dim);
+                # a split_single_dim split in several dimensions nests the children: library assertion in the error estimate
+                chk.count('skipped: split_single_dim + high-order grid sibling assertion (%s)' % where)
+                continue
+            chk.violation('corr:C05/replay', 'impl-exception', dict(make_sig(c), exc=r[0] if r else st), c, dict(impl=str(r)))
             continue
-        if c['strat'] in ('dw', 'es'):
+        if c['strat'] in ('dw', 'es', 'cell'):
             todo.append(run_adaptive_checks(chk, c, r, mjobs))
             ns = len(r['stops'])
             chk.count('stops=%d' % ns)
+            sides = sum(1 for e in r['events'] if e[0] == 2 and len(e) > 5 and not e[5])
+            ests = sum(1 for e in r['events'] if e[0] == 8)
+            nside += sides; nest += ests
+            if sides:
+                chk.count('cases with side evaluations (apply_to_combi_result=False)')
+            if any(e[0] == 2 and len(e) > 5 and not e[5] for e in _after_first_stop(r['events'])):
+                nmulti += 1
+                chk.count('cases with side evaluations during refinement (area split in >= 2 dimensions at once)')
             if ns >= 2:
-                keys.append((c['strat'], c.get('grid', 'trap'), c.get('auto'), str(c['comps']), str(c.get('errcalc')), c.get('version'), c['lmax'], ns, str(c['a']), str(c['b'])))
+                keys.append((c['strat'], c.get('grid', c.get('ggrid', 'trap')), c.get('auto'), c.get('single_dim'), str(c['comps']), str(c.get('errcalc')), c.get('version'), c['lmax'], ns, str(c['a']), str(c['b'])))
             if len(samples) < 3 and ns >= 3:
-                samples.append(dict(strat=c['strat'], comps=c['comps'], reported=[[A.unfl(x) for x in s['reported']] for s in r['stops']],
+                samples.append(dict(strat=c['strat'], comps=c['comps'], options={k: v for k, v in c.items() if k not in ('comps', 'a', 'b', 'seed')},
+                                    reported=[[A.unfl(x) for x in s['reported']] for s in r['stops']],
                                     independent=[[A.unfl(x) for x in s['fresh']] for s in r['stops']], events=len(r['events'])))
         else:
             todo.append(run_simple_checks(chk, c, r, mjobs))
             if len(r['scheme']) >= 3:
                 keys.append((c['strat'], str(c['comps']), c['lmin'], c['lmax'], str(c['a']), str(c['b'])))
+    chk.extra['side_evaluations_logged'] = nside
+    chk.extra['estimate_evaluations_logged'] = nest
     mres = run_model(5, mjobs)
     for ev in todo:
         ev(mres)
     finish_rules(chk, todo)
+    print('C05 option histogram: ' + ', '.join('%s:%d' % kv for kv in sorted(chk.extra.get('option_histogram', {}).items())
+                                              if any(t in kv[0] for t in ('version', 'single_dim=', 'auto', 'recalc', 'grid=', 'operation', 'chebyshev', 'dim_adaptive'))))
+    print('C05 side evaluations logged: %d (in %d cases during refinement), estimate evaluations: %d' % (nside, nmulti, nest))
     chk.record_cases(len(cases), keys,
-                     'step-wise driven dimension-wise / extend-split(v0) runs with event log (d 2..3, lmax 2..3, 1..5 refinement steps, library and '
-                     'scripted error calculators, vector polynomial integrands on dyadic boxes) + StandardCombi (lmin 1..2, span 0..3) + '
+                     'step-wise driven dimension-wise / extend-split (versions 0..3, split_single_dim, automatic_extend_split, recalculation) / cell runs '
+                     'with event log incl. side and estimate evaluations (d 2..3, lmin 1..2, 1..5 refinement steps, library and scripted error '
+                     'calculators, vector polynomial integrands on dyadic boxes, Integration and UncertaintyQuantification) + StandardCombi + '
                      'DimAdaptiveCombi; non-trivial = at least one refinement step (adaptive) or >= 3 component grids (standard/dim-adaptive); '
                      'distinct by (strategy, integrand, box, options, steps)', samples)
+
+
+def _after_first_stop(events):
+    seen = False
+    for e in events:
+        if e[0] == 6:
+            seen = True
+        elif seen:
+            yield e
 
 
 def replay(chk, rep):
@@ -493,7 +1004,7 @@ def replay(chk, rep):
     if st != 'ok':
         return 1
     mjobs = []
-    ev = (run_adaptive_checks if c['strat'] in ('dw', 'es') else run_simple_checks)(chk, c, r, mjobs)
+    ev = (run_adaptive_checks if c['strat'] in ('dw', 'es', 'cell') else run_simple_checks)(chk, c, r, mjobs)
     mres = run_model(5, mjobs)
     print('model:', str(mres)[:2000])
     ev(mres)
